@@ -11,6 +11,7 @@ any column order (`lay.cover` is only required to be a permutation of `0..d-1`),
 Exact real arithmetic; floating-point rounding is not modelled.
 -/
 import Xrfmv.Lemmas.Categorical
+import Xrfmv.Gen.Chunks
 
 namespace Xrfmv.Props.C15
 open Xrfmv.Categorical
@@ -121,5 +122,14 @@ example : exLayout.cover.Perm (List.range 6) ∧ NoMix exLayout 6 exT ∧ OneHot
 example : (match exT with | .full m => m 0 3 | _ => 0) = 4 := by
   simp [exT, sameBlock, exLayout, Layout.blocks]
   norm_num
+
+/-- **C15 (row blocks of the fast paths, over the regenerated source)**  The categorical fast paths add the per-group lookup
+tables to the numerical distances in row blocks (`for i in range(0, x.shape[0], batch_size): m[i:i+batch_size].add_(…)`; the
+product kernel fills the numerical part in blocks of another size).  Every such loop of the regenerated inventory `Gen.Chunks`
+starts at 0, runs to the number of rows and slices exactly one step: each row receives each group's table entry exactly once
+(`Props/C01.tiling_is_rowwise` is the general statement about such loops). -/
+theorem row_blocks_are_tilings :
+    Xrfmv.Gen.Chunks.loops.all (fun l => l.startZero && l.stopIsLeadingDim && l.widthEqStep && l.lowerIsLoopVar) = true := by
+  decide
 
 end Xrfmv.Props.C15
